@@ -45,12 +45,14 @@ def model_check(ctx):
         runs = [("ShuffleShardMC", "MC_walk_quick.cfg"), ("ShuffleShardMC", "MC_lookback_quick.cfg"),
                 ("PartitionShardMC", "MC_part_quick.cfg")]
     else:
-        runs = [("ShuffleShardMC", "MC_walk_thorough.cfg"), ("ShuffleShardMC", "MC_walk3_thorough.cfg"),
-                ("ShuffleShardMC", "MC_lookback_thorough.cfg"), ("PartitionShardMC", "MC_part_thorough.cfg"),
+        runs = [("ShuffleShardMC", "MC_walk_thorough.cfg"), ("ShuffleShardMC", "MC_walk4_thorough.cfg"),
+                ("ShuffleShardMC", "MC_walk3_thorough.cfg"), ("ShuffleShardMC", "MC_lookback_thorough.cfg"),
+                ("ShuffleShardMC", "MC_lookback4_thorough.cfg"), ("PartitionShardMC", "MC_part_thorough.cfg"),
                 ("ShuffleShardMC", "MC_walk_quick.cfg"), ("ShuffleShardMC", "MC_lookback_quick.cfg"),
                 ("PartitionShardMC", "MC_part_quick.cfg")]
     for module, cfg in runs:
-        cov = ctx.tier == "thorough" and cfg.endswith("_quick.cfg")
+        # vacuity guard (thorough tier): the two configs in which every action can fire
+        cov = ctx.tier == "thorough" and cfg in ("MC_lookback_quick.cfg", "MC_part_quick.cfg")
         r = ctx.tlc("shuffleshard", module, cfg=cfg, timeout=1500, workers=WORKERS, coverage=cov)
         if r.violated and r.emitted:
             concretise(ctx, r, cfg)
@@ -74,7 +76,8 @@ def concretise(ctx, r, cfg):
 
 def record_validate(ctx, part, corrupt=None):
     trace = ctx.path("trace_%s_%d.ndjson" % (part, ctx._nrun))
-    env = {"VERIF_TRACE": trace, "VERIF_C12_PART": part}
+    conc = trace + ".concrete"
+    env = {"VERIF_TRACE": trace, "VERIF_C12_PART": part, "VERIF_TRACE_CONCRETE": conc}
     if corrupt:
         env["VERIF_CORRUPT"] = corrupt
     res = ctx.run_harness("c12", "^TestRecord$", env=env, timeout=1200)
@@ -94,7 +97,28 @@ def record_validate(ctx, part, corrupt=None):
         raise verif.Inconclusive("trace validation (%s): %s" % (part, r.violated))
     if r.distinct != nev + 1:
         raise verif.Inconclusive("trace validation (%s): %d of %d events consumed" % (part, r.distinct - 1, nev))
+    for rep in reports:
+        rep["concrete"] = concrete_rings(conc, rep.get("line", 0))
     return res, reports
+
+
+def concrete_rings(path, line):
+    """The concrete content (tokens, zones, timestamps) of the ring version a rejected answer was given on, and of the one before."""
+    last = []
+    try:
+        with open(path) as f:
+            for ln in f:
+                d = json.loads(ln)
+                if d.get("line", 0) > line:
+                    break
+                if len(d.get("members", [])) > 12:     # keep replay files readable
+                    for m in d["members"]:
+                        if len(m.get("tokens", [])) > 8:
+                            m["tokens"] = m["tokens"][:8] + ["... %d tokens; re-run replay_cmd for all" % len(m["tokens"])]
+                last = (last + [d])[-2:]
+    except Exception as ex:
+        return {"error": str(ex)}
+    return {"ring": last[-1] if last else None, "previous_ring": last[-2] if len(last) > 1 else None}
 
 
 def sig_of(rep, f):
@@ -118,7 +142,8 @@ def validate_direction(ctx):
                 ctx.disagreement({"sig": sig_of(rep, f),
                                   "case": {"trace_line": rep.get("line"), "kind": rep.get("kind"), "za": rep.get("za"),
                                            "now": rep["info"].get("now"), "client": rep["info"].get("client"),
-                                           "ring": rep["info"].get("view"), "ring_stamp": rep["info"].get("stamp"), "query": f.get("q")},
+                                           "ring": rep["info"].get("view"), "ring_stamp": rep["info"].get("stamp"), "query": f.get("q"),
+                                           "concrete": rep.get("concrete")},
                                   "got": f.get("q", {}).get("S"),
                                   "want": "clause %s of ShardHistory.tla; conflicting answers / required members: %s" % (
                                       f.get("clause"), json.dumps(f.get("other"))[:1500])},
